@@ -94,24 +94,29 @@ def build(rng, quick, origin=None):
         chs = []
         for c in range(nch):
             rc = rng.choice([2, 7]) if c == 0 else rng.choice([2, 7, 12, 13, 14, 15, 16, 17, 5, 6, 6])
-            dims = [1] if c == 0 else rng.choice([[1], [1], [2], [3], [2, 2], [2, 3]])
+            # (the first channel is the index: a scalar as a rule; now and then a frame type without an index whose first channel is a
+            # short or a long array - a waveform of 100 samples is 400 / 800 bytes at the front of every data record)
+            dims = rng.choice([[1]] * 8 + [[2], [100]]) if c == 0 else rng.choice([[1], [1], [2], [3], [2, 2], [2, 3]])
             chs.append(dict(o=oref, c=copyno, name=('T%dC%d' % (t, c)).encode(), long_name=b'long name %d' % c, rc=rc, units=b'm' if c == 0 else b'', dims=dims))
         chans_all += chs
-        types.append(dict(name=b'FT%d' % t, channels=chs, n=rng.choice([1, 2, 5, 9, 30] if not quick else [1, 2, 5, 9])))
+        types.append(dict(name=b'FT%d' % t, fc=0, channels=chs, n=rng.choice([1, 2, 5, 9, 30] if not quick else [1, 2, 5, 9])))
+    if ntypes == 2 and rng.random() < 0.3:
+        for t, ty in enumerate(types):          # two copies of one frame object name: two frame types
+            ty['name'], ty['fc'] = b'MAIN', t
     # file order of data records: interleave the types, sprinkle empty records
     order = []
     for t, ty in enumerate(types):
         order += [t] * ty['n']
     rng.shuffle(order)
     recs = [dict(kind='E', type=0, enc=False), dict(kind='E', type=1, enc=False), dict(kind='E', type=3, enc=False), dict(kind='E', type=4, enc=False)]
-    payloads = [GL.file_header(), origin or GL.origin(), GL.channel_eflr(rng.sample(chans_all, len(chans_all)) if rng.random() < 0.6 else chans_all), GL.frame_eflr([dict(o=oref, name=ty['name'], channels=ty['channels']) for ty in types])]
+    payloads = [GL.file_header(), origin or GL.origin(), GL.channel_eflr(rng.sample(chans_all, len(chans_all)) if rng.random() < 0.6 else chans_all), GL.frame_eflr([dict(o=oref, c=ty['fc'], name=ty['name'], channels=ty['channels']) for ty in types])]
     counters = [0] * ntypes
     frame_nos = [[] for _ in types]
     fno = [rng.choice([0, 0, 120, 16380]) for _ in types]       # frame numbers are UVARIs too
     for t in order:
         if rng.random() < 0.12:
             fno[t] += 1
-            payloads.append(GL.iflr(types[t]['name'], fno[t], b'', o=oref))          # an empty data record: no frame
+            payloads.append(GL.iflr(types[t]['name'], fno[t], b'', o=oref, c=types[t]['fc']))          # an empty data record: no frame
             recs.append(dict(kind='I', type=0, enc=False))
         r = counters[t]
         counters[t] += 1
@@ -122,7 +127,7 @@ def build(rng, quick, origin=None):
             n = int(np.prod(ch['dims']))
             for e in range(n):
                 data += enc(ch['rc'], value_of(ch['rc'], r, c, e))
-        payloads.append(GL.iflr(types[t]['name'], fno[t], data, o=oref))
+        payloads.append(GL.iflr(types[t]['name'], fno[t], data, o=oref, c=types[t]['fc']))
         recs.append(dict(kind='I', type=0, enc=False))
     for rec, p in zip(recs, payloads):
         rec['len'] = len(p)
@@ -180,7 +185,15 @@ def run(ctx):
             tr = []
             m = dict(frame_type=t, records=n, channels=[(c['rc'], c['dims']) for c in ty['channels']], persisted_index=persisted)
             xax = lf.iflr_position_map[fa.ident]
-            xrecs = [record_of(ty['channels'][0]['rc'], xax[i].x_axis, 0, 0) for i in range(len(xax))]
+            n0 = int(np.prod(ty['channels'][0]['dims']))
+            if n0 == 1:
+                xrecs = [record_of(ty['channels'][0]['rc'], xax[i].x_axis, 0, 0) for i in range(len(xax))]
+            else:
+                # an array-valued first channel: the index holds its mean (value_of: r / 2 + e / 8 for element e)
+                xrecs = []
+                for i in range(len(xax)):
+                    q = (float(xax[i].x_axis) - 0.125 * (n0 - 1) / 2.0) / 0.5
+                    xrecs.append(int(round(q)) if abs(q - round(q)) < 1e-3 and round(q) >= 0 else None)
             tr.append(dict(op='index', frames=len(xax), frameNos=[xax[i].frame_number for i in range(len(xax))], xrecs=[-1 if v is None else v for v in xrecs]))
             for call in range(ctx.pick(5, 9)):
                 k = rng.random()
